@@ -5,7 +5,7 @@ Require Gen.Tables.
 Import ListNotations.
 Local Open Scope string_scope.
 
-(* cancelled rounds that cannot even be restored (no machine owns the state) *)
+(* cancelled rounds in a final state of their machine (no transition leaves them) *)
 Definition dead_states : list string :=
   [ "state_sig_proposal_canceled_by_participant"; "state_sig_proposal_canceled_by_timeout";
     "state_dkg_commits_await_canceled_by_timeout"; "state_dkg_deals_await_canceled_by_timeout";
@@ -16,45 +16,37 @@ Definition error_states : list string :=
     "state_dkg_responses_await_canceled_by_error"; "state_dkg_master_key_await_canceled_by_error" ].
 Definition cancelled_states : list string := dead_states ++ error_states.
 
-Lemma dead_not_loadable :
-  forallb (fun s => match machine_by_state s with None => true | Some _ => false end) dead_states = true.
-Proof. vm_compute. reflexivity. Qed.
-
-Lemma error_states_owner :
+(* every cancelled state is owned by a machine whose table never leaves it *)
+Lemma cancelled_states_owner :
   forallb (fun s => match machine_by_state s with
-                    | Some t => String.eqb (ft_name t) (ft_name Gen.Tables.dkgprop_table) &&
-                                closed_b Gen.Tables.dkgprop_table [s] && copy_with_state_ok t s &&
-                                negb (String.eqb s "")
-                    | None => false end) error_states = true.
+                    | Some t => closed_b t [s] && copy_with_state_ok t s && negb (String.eqb s "") &&
+                                match table_by_name (ft_name t) with
+                                | Some t' => closed_b t' [s]
+                                | None => false
+                                end
+                    | None => false end) cancelled_states = true.
 Proof. vm_compute. reflexivity. Qed.
-
-Lemma table_by_name_dkg : table_by_name (ft_name Gen.Tables.dkgprop_table) = Some Gen.Tables.dkgprop_table.
-Proof. reflexivity. Qed.
 
 Lemma do_on_cancelled s p ev req d' rs rd :
   In s cancelled_states ->
   do_on_dump {| d_state := s; d_payload := p |} ev req = SOk d' rs rd ->
   d_state d' = s /\ rs = s.
 Proof.
-  intros Hin H. unfold cancelled_states in Hin. apply in_app_or in Hin as [Hd|He].
-  - pose proof dead_not_loadable as Hn. rewrite forallb_forall in Hn. specialize (Hn s Hd).
-    unfold do_on_dump, from_dump in H. cbn [d_state] in H.
-    destruct (machine_by_state s); [discriminate|discriminate].
-  - pose proof error_states_owner as Ho. rewrite forallb_forall in Ho. specialize (Ho s He).
-    unfold do_on_dump, from_dump in H. cbn [d_state d_payload] in H.
-    destruct (machine_by_state s) as [t|]; [|discriminate].
-    apply andb_prop in Ho as [Ho Hne]. apply andb_prop in Ho as [Ho Hcopy].
-    apply andb_prop in Ho as [Hname Hclosed].
-    apply String.eqb_eq in Hname. apply negb_true_iff in Hne.
-    rewrite Hcopy, Hne in H. unfold inst_do in H. cbn [i_mach i_cur i_payload i_dstate] in H.
-    rewrite Hname, table_by_name_dkg in H.
-    destruct (fsm_do Gen.Tables.dkgprop_table _ s p ev req) as [|cur' rs' rd' err p'|] eqn:Ed;
-      [discriminate| |discriminate].
-    destruct err; [discriminate|].
-    pose proof (fsm_do_ok_rstate _ _ _ _ _ _ _ _ _ _ Ed) as Hrs.
-    pose proof (fsm_do_closed _ _ [s] _ _ _ _ _ _ _ _ _ Hclosed (or_introl eq_refl) Ed) as Hc.
-    destruct Hc as [Hc|[]]. subst cur' rs'.
-    inversion H; subst. cbn. split; reflexivity.
+  intros Hin H.
+  pose proof cancelled_states_owner as Ho. rewrite forallb_forall in Ho. specialize (Ho s Hin).
+  unfold do_on_dump, from_dump in H. cbn [d_state d_payload] in H.
+  destruct (machine_by_state s) as [t|]; [|discriminate].
+  apply andb_prop in Ho as [Ho Htab]. apply andb_prop in Ho as [Ho Hne]. apply andb_prop in Ho as [_ Hcopy].
+  apply negb_true_iff in Hne.
+  rewrite Hcopy, Hne in H. unfold inst_do in H. cbn [i_mach i_cur i_payload i_dstate] in H.
+  destruct (table_by_name (ft_name t)) as [t'|]; [|discriminate].
+  destruct (fsm_do t' _ s p ev req) as [|cur' rs' rd' err p'|] eqn:Ed;
+    [discriminate| |discriminate].
+  destruct err; [discriminate|].
+  pose proof (fsm_do_ok_rstate _ _ _ _ _ _ _ _ _ _ Ed) as Hrs.
+  pose proof (fsm_do_closed _ _ [s] _ _ _ _ _ _ _ _ _ Htab (or_introl eq_refl) Ed) as Hc.
+  destruct Hc as [Hc|[]]. subst cur' rs'.
+  inversion H; subst. cbn. split; reflexivity.
 Qed.
 
 Lemma cancelled_no_handover s : In s cancelled_states ->
